@@ -78,14 +78,28 @@ fn proxy_of(tag: u64) -> attohttpc::ProxySettings {
     if tag > 0 {
         b = b.http_proxy(url::Url::parse(&format!("http://p{}.test:3128", tag)).ok());
     }
+    // (values 2 and 3 carry exclusions: a value set on a request REPLACES the inherited one, exclusions and all —
+    // seed C16-seed13: the request-level setter merges the inherited no-proxy hosts into the new value)
+    if tag == 2 {
+        b = b.add_no_proxy_host("x.test");
+    }
+    if tag == 3 {
+        b = b.add_no_proxy_host("y.test").add_no_proxy_host("z.test");
+    }
     b.build()
 }
 
 fn proxy_tag(debug: &str) -> u64 {
     // ... host: Some(Domain("p3.test")) ...
-    match debug.find("Domain(\"p") {
+    let n: u64 = match debug.find("Domain(\"p") {
         Some(i) => debug[i + 9..].chars().take_while(|c| c.is_ascii_digit()).collect::<String>().parse().unwrap_or(0),
         None => 0,
+    };
+    // the whole value, not just the proxy it names: anything that is not exactly one of the four values is 90 + n
+    if debug == format!("{:?}", proxy_of(n)) {
+        n
+    } else {
+        90 + n
     }
 }
 
